@@ -124,6 +124,40 @@ pub fn run(tier: Tier) -> Run {
             c.sample_histories.extend(st.sample_histories.into_iter().take(1));
         }
     }
+    // ---- part 2d: per type method, through a finished-and-continued module, and with an operand that is the id of a
+    //      constant created by an earlier call (two constants of equal value are still two ids)
+    {
+        use rayon::prelude::*;
+        let mut hs: Vec<Vec<BOp>> = vec![];
+        for si in 0..sites.len() {
+            let x = BOp::TypeCall(si, None, 0);
+            for cont in [BOp::Continue, BOp::Reload] {
+                hs.push(vec![x.clone(), cont.clone(), x.clone(), x.clone()]);
+                hs.push(vec![BOp::TypeCall(si, None, 1), x.clone(), cont.clone(), x.clone(), BOp::TypeCall(si, None, 1)]);
+            }
+            // a module that already holds this declaration WITHOUT a result id (as a loader delivers result-less opcodes)
+            hs.push(vec![BOp::AdoptWithoutId(si), x.clone(), x.clone(), x.clone()]);
+            for k in 0..4 {
+                let r = BOp::TypeCallRef(si, k);
+                hs.push(vec![BOp::ConstantBit32, r.clone(), BOp::ConstantBit32, r.clone()]);
+                hs.push(vec![BOp::ConstantBit32, r.clone(), r.clone()]);
+                hs.push(vec![BOp::ConstantBit32, BOp::ConstantBit32, r.clone(), BOp::Id, r.clone()]);
+            }
+        }
+        let steps: Vec<xs::Step> = hs.par_iter().map(|h| f(h)).collect();
+        for st in steps {
+            c.transitions += 4;
+            c.histories_replayed += 1;
+            for v in st.viols {
+                if !c.viols.iter().any(|x| x.key == v.key) {
+                    c.viols.push(v);
+                }
+            }
+            for k in st.outcomes {
+                *c.outcomes.entry(k).or_insert(0) += 1;
+            }
+        }
+    }
     for st in [&a, &b, &c] {
         run.add_all(st.viols.clone());
         run.merge_outcomes(&st.outcomes);
